@@ -16,7 +16,7 @@ pub fn prop() -> Prop {
     Prop {
         id: "C16",
         level: "model_checking",
-        rule: "(a) histories: every ordered sequence of <= 2 (quick) / <= 3 (thorough) programs of a 40-program batch chosen to collide (same literals, names and strings in different positions, values equal under == but not identical such as 0.0 and -0.0 or 1 and 1.0, heap allocation everywhere, builtin and nested-call errors, output), evaluated one after the other on one thread of one process: every evaluation must give the outcome the program gives alone in a FRESH process; (a'') near-identical long texts: self-printing programs of 16 length classes from 100 bytes to 128 KiB, each evaluated after a text of the same length that differs in one byte, at 64 consecutive middle positions and at both ends; (b) schedules: for every unordered pair of a 10-program subset, two evaluations on real threads under a controlled scheduler that yields before every VM instruction and between the phases of eval; EVERY schedule with at most p preemptions is run to completion and each thread's outcome must equal its solo outcome; (c) configurations: the whole check, and a table of operator and arithmetic programs across the overflow boundaries, runs under two builds of the interpreter (release-like; debug assertions + overflow checks) and the (program, outcome) tables must be identical, with the solo outcomes always taken from the release build. States = schedules + histories completed; transitions = scheduling points executed",
+        rule: "(a) histories: every ordered sequence of <= 2 (quick) / <= 3 (thorough) programs of a 48-program batch chosen to collide (incl. generated big programs: 300 globals, 300 heap globals, 600 constants, an error with 60 frames active, and programs that read a variable they never wrote) (same literals, names and strings in different positions, values equal under == but not identical such as 0.0 and -0.0 or 1 and 1.0, heap allocation everywhere, builtin and nested-call errors, output), evaluated one after the other on one thread of one process: every evaluation must give the outcome the program gives alone in a FRESH process; (a'') near-identical long texts: self-printing programs of 16 length classes from 100 bytes to 128 KiB, each evaluated after a text of the same length that differs in one byte, at 64 consecutive middle positions and at both ends; (b) schedules: for every unordered pair of a 10-program subset, two evaluations on real threads under a controlled scheduler that yields before every VM instruction and between the phases of eval; EVERY schedule with at most p preemptions is run to completion and each thread's outcome must equal its solo outcome; (c) configurations: the whole check, and a table of operator and arithmetic programs across the overflow boundaries, runs under two builds of the interpreter (release-like; debug assertions + overflow checks) and the (program, outcome) tables must be identical, with the solo outcomes always taken from the release build. States = schedules + histories completed; transitions = scheduling points executed",
         assumptions: &[
             "(d) the executable's symbol table is scanned for writable statics / thread-locals of the interpreter crate; if there are none the instruction-granularity schedules are sufficient; if some appear, a free-running (sampling, labelled) complement on real parallel threads is added, because the exhaustive argument no longer covers races inside one instruction",
             "instruction granularity: accesses inside one VM instruction are not interleaved by this scheduler; unsynchronised shared memory touched within a single instruction is outside its reach (the crate has no static, thread_local, lock or atomic: grep-verified in DESIGN 8)",
@@ -28,7 +28,7 @@ pub fn prop() -> Prop {
     }
 }
 
-pub const BATCH: &[&str] = &[
+const BATCH_SMALL: &[&str] = &[
     "1 + 2",
     "\"abc\"",
     "stel a = \"abc\"; a[0] = \"x\"; a",
@@ -72,14 +72,41 @@ pub const BATCH: &[&str] = &[
     "stel a = 1.0; stel b = 1; [a == b, a, b]",
 ];
 
-/// Indices into BATCH of the short programs used for the schedule exploration.
+/// The batch: the fixed short programs plus a few generated BIG ones (hundreds of globals and constants, an
+/// error with many frames active) and programs that read what they never wrote — whatever an implementation
+/// keeps between evaluations (a pooled machine, a table that grew) shows when a big evaluation is followed
+/// by a small one.
+pub fn batch() -> &'static [&'static str] {
+    static B: std::sync::OnceLock<Vec<&'static str>> = std::sync::OnceLock::new();
+    B.get_or_init(|| {
+        let mut v: Vec<&'static str> = BATCH_SMALL.to_vec();
+        let many_globals: String = (0..300).map(|i| format!("stel g{i} = {}; ", 1000 + i)).collect::<String>() + "g7 + g299";
+        let heap_globals: String = (0..300).map(|i| format!("stel h{i} = [{i}.5, \"t{i}\"]; ")).collect::<String>() + "h0";
+        let many_constants: String = format!("stel k = [{}]; k[299]", (0..300).map(|i| format!("{i}.25, \"c{i}\"")).collect::<Vec<_>>().join(", "));
+        for t in [
+            many_globals,
+            heap_globals,
+            many_constants,
+            "functie r(n) { stel s = [n, \"x\"]; als n == 0 { [1][5] } r(n - 1) + 1 } r(60)".to_string(),
+            "stel a = a; a".to_string(),
+            "stel g0 = g0; g0".to_string(),
+            "stel h0 = h0; stel h1 = h1; [h0, h1]".to_string(),
+            "stel p1 = 1; stel p2 = 2; stel p3 = 3; stel p4 = 4; stel p5 = 5; stel p6 = 6; stel p7 = 7; stel p8 = 8; stel p9 = p9; p9".to_string(),
+        ] {
+            v.push(Box::leak(t.into_boxed_str()));
+        }
+        v
+    })
+}
+
+/// Indices into batch() of the short programs used for the schedule exploration.
 const SCHED_SET: [usize; 10] = [0, 1, 2, 4, 7, 13, 15, 17, 19, 25];
 
 fn render(o: &ThreadOutcome) -> String {
     format!("{} | output {:?}", impl_end_text(&o.end), o.output)
 }
 
-/// The outcome of BATCH[i] alone in a fresh process of the RELEASE build.
+/// The outcome of batch()[i] alone in a fresh process of the RELEASE build.
 fn fresh_process_solo(i: usize) -> Option<String> {
     let exe = std::env::var_os("NLMC_RELEASE").map(std::path::PathBuf::from).unwrap_or_else(|| std::path::PathBuf::from("/verif/.target/release/nlmc"));
     let out = std::process::Command::new(exe).arg("solo16").arg(i.to_string()).output().ok()?;
@@ -95,7 +122,7 @@ fn fresh_process_solo(i: usize) -> Option<String> {
 
 pub fn solo_main(i: usize) {
     crate::outcome::install_quiet_panic_hook();
-    let o = sched::solo(BATCH[i], 1_000_000);
+    let o = sched::solo(batch()[i], 1_000_000);
     println!("{}", render(&o));
 }
 
@@ -126,7 +153,7 @@ fn writable_statics() -> Option<Vec<String>> {
 /// exhaustive schedule exploration does not hold): the pairs run on real threads without the baton, many
 /// times. This is sampling, labelled as such in the evidence; a difference from the solo outcome is real.
 fn free_running(sh: &mut Shard, solos: &[String], statics: &[String]) {
-    let set: Vec<usize> = (0..BATCH.len()).collect();
+    let set: Vec<usize> = (0..batch().len()).collect();
     let reps = 40;
     let mut pair_no = 0u64;
     for x in 0..set.len() {
@@ -144,7 +171,7 @@ fn free_running(sh: &mut Shard, solos: &[String], statics: &[String]) {
                     .iter()
                     .map(|k| {
                         let b = barrier.clone();
-                        let text = BATCH[*k].to_string();
+                        let text = batch()[*k].to_string();
                         std::thread::Builder::new()
                             .stack_size(64 << 20)
                             .spawn(move || {
@@ -163,10 +190,10 @@ fn free_running(sh: &mut Shard, solos: &[String], statics: &[String]) {
                     match h.join() {
                         Ok(outs) => {
                             if let Some(o) = outs.iter().find(|o| **o != solos[k]) {
-                                bad = Some(format!("{:?} running next to {:?} on another thread gave {o}, alone it gives {}", BATCH[k], BATCH[[j, i][t]], solos[k]));
+                                bad = Some(format!("{:?} running next to {:?} on another thread gave {o}, alone it gives {}", batch()[k], batch()[[j, i][t]], solos[k]));
                             }
                         }
-                        Err(_) => bad = Some(format!("the thread evaluating {:?} died", BATCH[k])),
+                        Err(_) => bad = Some(format!("the thread evaluating {:?} died", batch()[k])),
                     }
                 }
                 if bad.is_some() {
@@ -176,7 +203,7 @@ fn free_running(sh: &mut Shard, solos: &[String], statics: &[String]) {
             if let Some(why) = bad {
                 sh.violation(
                     "free-running",
-                    json!({"programs": [BATCH[i], BATCH[j]], "free_running": true, "writable_statics": statics}),
+                    json!({"programs": [batch()[i], batch()[j]], "free_running": true, "writable_statics": statics}),
                     format!("{why} (the interpreter has process-wide writable data: {statics:?})"),
                 );
                 return;
@@ -292,11 +319,11 @@ fn run(sh: &mut Shard) {
     let profile = if cfg!(debug_assertions) { "dev" } else { "rel" };
     // solo outcomes from fresh release-build processes
     let mut solos: Vec<String> = Vec::new();
-    for i in 0..BATCH.len() {
+    for i in 0..batch().len() {
         match fresh_process_solo(i) {
             Some(s) if s.starts_with("CRASH") => {
                 sh.mine();
-                sh.violation("solo", json!({"history": [BATCH[i]]}), format!("{:?}: {s}", BATCH[i]));
+                sh.violation("solo", json!({"history": [batch()[i]]}), format!("{:?}: {s}", batch()[i]));
                 return;
             }
             Some(s) => solos.push(s),
@@ -322,7 +349,7 @@ fn run(sh: &mut Shard) {
     }
     // (a) histories
     let hlen = if tier == Tier::Quick { 2 } else { 3 };
-    let n = BATCH.len();
+    let n = batch().len();
     // everything this worker has evaluated on this thread so far (a deviation may be due to an EARLIER
     // history of the same worker: the replay file carries the whole sequence)
     let mut log: Vec<usize> = Vec::new();
@@ -338,28 +365,28 @@ fn run(sh: &mut Shard) {
                 idx.push((c % n as u64) as usize);
                 c /= n as u64;
             }
-            sh.begin(&|| idx.iter().map(|i| BATCH[*i]).collect::<Vec<_>>().join(" ⏎ "));
+            sh.begin(&|| idx.iter().map(|i| batch()[*i]).collect::<Vec<_>>().join(" ⏎ "));
             sh.count(&format!("histories:{profile}"));
             sh.count("states");
             sh.count("traces_validated_against_impl");
             sh.nontrivial(&(profile, "history", &idx));
             for (pos, i) in idx.iter().enumerate() {
-                let o = sched::solo(BATCH[*i], 1_000_000);
+                let o = sched::solo(batch()[*i], 1_000_000);
                 log.push(*i);
                 sh.count("transitions");
-                sh.outcome(&(BATCH[*i], render(&o)));
+                sh.outcome(&(batch()[*i], render(&o)));
                 if render(&o) != solos[*i] {
                     sh.violation(
                         "history",
-                        json!({"profile": profile, "history": idx.iter().map(|i| BATCH[*i]).collect::<Vec<_>>(), "position": pos,
+                        json!({"profile": profile, "history": idx.iter().map(|i| batch()[*i]).collect::<Vec<_>>(), "position": pos,
                                "evaluated_before_on_this_thread": log[..log.len() - 1 - pos].to_vec()}),
-                        format!("evaluation {} of the history ({:?}) gave {} but alone in a fresh process it gives {}", pos + 1, BATCH[*i], render(&o), solos[*i]),
+                        format!("evaluation {} of the history ({:?}) gave {} but alone in a fresh process it gives {}", pos + 1, batch()[*i], render(&o), solos[*i]),
                     );
                     break;
                 }
             }
             if sh.index() % 211 == 0 {
-                sh.sample(json!({"history": idx.iter().map(|i| BATCH[*i]).collect::<Vec<_>>()}));
+                sh.sample(json!({"history": idx.iter().map(|i| batch()[*i]).collect::<Vec<_>>()}));
             }
         }
     }
@@ -392,7 +419,7 @@ fn run(sh: &mut Shard) {
                 break 'long;
             }
             if k % 500 == 499 {
-                for (i, b) in BATCH.iter().enumerate() {
+                for (i, b) in batch().iter().enumerate() {
                     let o = sched::solo(b, 1_000_000);
                     if render(&o) != solos[i] {
                         sh.violation(
@@ -430,9 +457,9 @@ fn run(sh: &mut Shard) {
                 continue;
             }
             let (i, j) = (SCHED_SET[x], SCHED_SET[y]);
-            let programs = vec![BATCH[i].to_string(), BATCH[j].to_string()];
+            let programs = vec![batch()[i].to_string(), batch()[j].to_string()];
             sh.mine();
-            sh.begin(&|| format!("all schedules with <= {bound} preemptions of {:?} || {:?}", BATCH[i], BATCH[j]));
+            sh.begin(&|| format!("all schedules with <= {bound} preemptions of {:?} || {:?}", batch()[i], batch()[j]));
             let mut stats = ExploreStats { schedules: 0, points: 0, interleaved: 0, max_points: 0 };
             let expected = [solos[i].clone(), solos[j].clone()];
             let mut bad: Option<(String, Vec<usize>)> = None;
@@ -487,7 +514,7 @@ fn run(sh: &mut Shard) {
                         continue;
                     }
                     let idx = [set[x], set[y], set[z]];
-                    let programs: Vec<String> = idx.iter().map(|i| BATCH[*i].to_string()).collect();
+                    let programs: Vec<String> = idx.iter().map(|i| batch()[*i].to_string()).collect();
                     sh.mine();
                     sh.begin(&|| format!("all schedules with <= 2 preemptions of three evaluations {:?}", programs));
                     let mut stats = ExploreStats { schedules: 0, points: 0, interleaved: 0, max_points: 0 };
@@ -538,14 +565,14 @@ fn replay(sh: &mut Shard, case: &Value) {
         if let Some(before) = case["evaluated_before_on_this_thread"].as_array() {
             println!("re-evaluating the {} batch programs the worker had evaluated before this history", before.len());
             for i in before.iter().filter_map(|x| x.as_u64()) {
-                if let Some(p) = BATCH.get(i as usize) {
+                if let Some(p) = batch().get(i as usize) {
                     let _ = sched::solo(p, 1_000_000);
                 }
             }
         }
         for p in &progs {
             let o = sched::solo(p, 1_000_000);
-            let i = BATCH.iter().position(|b| b == p);
+            let i = batch().iter().position(|b| b == p);
             let fresh = i.and_then(fresh_process_solo).unwrap_or_default();
             println!(">>> {p}\n    here:  {}\n    fresh: {fresh}", render(&o));
             if render(&o) != fresh {
